@@ -151,8 +151,11 @@ def run(rep):
     sc = vlib.Scratch()
     tools = proc.Tools(sc)
     vlib.lean_gate(rep, 'C17', sc, [
-        'schedules: the second party runs to completion at one call boundary of the first (pause by the shim); real kernel interleavings '
+        'schedules: one party runs at a time and is switched at call boundaries only (pause by the shim); real kernel interleavings '
         'inside a system call are not explored',
+        'thorough tier: the content an mdsort party of the model finds under a name is what its reads return in the model world '
+        '(lean/Driver/Sched.lean re-instantiates Model.mainP with it); devices are global (dstA is another device for every party of a '
+        'schedule in which one party is move-xdev)',
     ])
     pairs = [(a, b) for a in A_KINDS for b in B_KINDS]
     if rep.tier == 'quick':
@@ -176,9 +179,17 @@ def run(rep):
             nprob += 1
             rep.finding(classify(r, hist), {'pair': r['pair'], 'history': signature(r), 'second_party_runs_before_call': r['k'], 'call': r['call'], 'rule': r['rule'],
                                       'first_party_exit': r['status'], 'second_party_exit': r['b_status'], 'what': r['problems'][:5]})
+    # one fixed two-preemption schedule that re-confirms F31 (a flag run re-uses a name, a label run unlinks it) on every run
+    import c17sched
+    f31 = c17sched.witness(rep, tools)
+    sched_cov = None
+    if rep.tier == 'thorough':
+        # two preemption points, three parties, the external client as a party, sampled schedules - every schedule also run by
+        # Model/Parties.lean through the driver (tools/c17sched.py)
+        sched_cov = c17sched.stage(rep, tools, sc, int(os.environ.get('VERIF_C17_BUDGET', '0')) or c17sched.BUDGET)
     vlib.lean_conclude(rep)
     rep.coverage.update({
-        'evaluations': len(results),
+        'evaluations': len(results) + (sched_cov['schedules'] if sched_cov else 0),
         'distinct_nontrivial': len([r for r in results if r['b_status'] or r['b_kind'].startswith('ext')]),
         'rule': '%d ordered pairs of parties from {move to A, move to B, cross-device move, flag, label, discard} x {the same, external rename, '
                 'external delete} on a shared maildir with 2 messages, and for each pair every schedule in which the second party runs to '
@@ -188,12 +199,20 @@ def run(rep):
         'samples': [r for r in results if not r['problems']][:2] + [r for r in results if r['problems']][:2],
         'schedules_with_problems': nprob,
         'problem_classes': classes,
+        'single_preemption_sweep': {'schedules': len(results), 'exhaustive': True},
+        'two_preemption_witness_of_F31': f31,
     })
+    if sched_cov:
+        rep.coverage['schedules_against_the_parties_model'] = sched_cov
 
 
 def replay(rep, path):
     import json
-    print(json.dumps(json.load(open(path)), indent=1)[:3000])
+    j = json.load(open(path))
+    print(json.dumps(j, indent=1)[:3000])
     sc = vlib.Scratch()
     vlib.lean_gate(rep, 'C17', sc, [])
+    if j.get('stage') == 'schedules' and j.get('schedule'):
+        import c17sched
+        c17sched.replay(proc.Tools(sc), sc, j)
     rep.coverage.update({'evaluations': 1, 'distinct_nontrivial': 1})
